@@ -292,18 +292,37 @@ def check_c10(tier):
                 break
         if real == want:
             continue
-        # first half violated: known iff the specification predicts exactly this state for this schedule
+        # first half violated.  The known finding (scan visit not ordered before the notification) is matched
+        # by SHAPE, not by exact state, so that a harmless reordering of map updates cannot raise an alarm:
+        #  - when the scan finished BEFORE the notification (coarse order scan_first) the editor must win: any
+        #    other state is a violation;
+        #  - otherwise the state must consist only of records of the two analyses of F (editor's buffer and
+        #    on-disk text), each at most as often as the two analyses together produce it.
         followed = r["granted"][:len(rep["sched"])] == rep["sched"]
-        predicted = kind.startswith("tlc") and followed and not rep["editorWins"] and proj_model(rep["final"]) == real
-        if kind in ("scan_first", "editor_first"):
-            # coarse orders: sequential semantics of the atomic model (scan after editor duplicates)
-            predicted = kind == "editor_first" or real != want
+        if kind.startswith("tlc") and followed and proj_model(rep["final"]) != real:
+            V.drift += 1
+        disk_only = refs[json.dumps(jl[0]["m"], sort_keys=True)]
+
+        def within_union(state):
+            for sect in ("defs", "usages", "ubf"):
+                keys = set(state[sect]) | set(want[sect]) | set(disk_only[sect])
+                for k in keys:
+                    have = list(state[sect].get(k, []))
+                    allowed = list(want[sect].get(k, [])) + list(disk_only[sect].get(k, []))
+                    for x in have:
+                        if x in allowed:
+                            allowed.remove(x)
+                        else:
+                            return False
+            return True
+
         e2 = dict(ex, state=real, expected=want, blame=["scan_no_cleanup_same_file"])
-        if predicted or not followed:
+        if kind == "scan_first":
+            V.violation(e2, "the notification arrived after the scan's visit, yet the index does not reflect the editor's content exactly once")
+        elif within_union(real):
             V.classify(["scan_no_cleanup_same_file"], e2, "after scan and editor notification the index does not reflect the editor's content exactly once")
         else:
-            V.drift += 1
-            V.violation(e2, "index after scan/editor interleaving differs from the editor's content and from the model's prediction")
+            V.violation(e2, "index after scan/editor interleaving contains records of neither the editor's nor the on-disk content")
     # ---- coarse-grained confirmation through the REAL binary: didOpen right after initialize (racing the
     # background scan, which is kept busy by filler files) vs after "Workspace scan complete"
     nbin = c10_binary(V, tier)
